@@ -2,15 +2,21 @@
 import gen_flw as g
 
 TZ_BY_OFFSET = True
-CLAIM = ("Proved in Coq: the field-by-field comparison of broken-down local times that the age criterion makes equals the comparison "
-         "of the numbers of the day / hour / minute / second the two instants lie in, for every pair of instants and every fixed zone "
-         "offset (C09_period; rests on the proved bijection days <-> civil date); the executable oracle's partition keeps every file "
+CLAIM = ('Proved in Coq END TO END for the model, Numbers naming, Age and AgeOrSize criterion, every buffer capacity and append '
+         'flag, EVERY history of writes / raw chunks / flushes / triggers / ticks of any sign from an empty directory: the '
+         "rotation flag of every write is the oracle's decision (C09_numbers_age_flags), the files left are exactly the oracle's "
+         'period partition of the timed history (C09_numbers_age_partition), and - stated without the oracle - every record of a '
+         "file lies in the period of the file's start and consecutive files lie in different periods unless rotate() or the size "
+         'limit separated them (C09_numbers_age_periods_pure, C09_numbers_age_or_size_periods_pure). Proved in Coq: the '
+         'field-by-field comparison of broken-down local times that the age criterion makes equals the comparison of the numbers '
+         'of the day / hour / minute / second the two instants lie in, for every pair of instants and every fixed zone offset '
+         "(C09_period; rests on the proved bijection days <-> civil date); the executable oracle's partition keeps every file "
          "inside one period and never splits inside a period (C09_oracle_*). That the implementation's files are exactly this "
-         "partition, for all namings, append-restarts, AgeOrSize and non-zero zone offsets, and that time-stamp-named files carry the "
-         "instant their content was started, is decided by the correspondence check (virtual clock + creation-time hooks) plus the "
-         "oracle applied to the implementation's directory; an end-to-end invariant proof over histories exists for Numbers naming "
-         "(C01/C08), the timestamp namings are partial.")
-THEOREMS = ["C09_period", "C09_calendar_bijective", "C09_civil_roundtrip", "C09_rotation_iff_later_period", "C09_age_or_size", "C09_model_decision"]
+         'partition, for all namings, append-restarts, AgeOrSize and non-zero zone offsets, and that time-stamp-named files '
+         'carry the instant their content was started, is decided by the correspondence check (virtual clock + creation-time '
+         "hooks) plus the oracle applied to the implementation's directory; an end-to-end invariant proof over histories exists "
+         'for Numbers naming (C01/C08), the timestamp namings are partial. ')
+THEOREMS = ["C09_numbers_age_flags", "C09_numbers_age_partition", "C09_numbers_age_periods_pure", "C09_numbers_age_or_size_periods_pure", "C09_period", "C09_calendar_bijective", "C09_civil_roundtrip", "C09_rotation_iff_later_period", "C09_age_or_size", "C09_model_decision"]
 TRUSTED = ["modelled, not verified: chrono's conversion of instants to local broken-down time (validated: file names are direct outputs), "
            "the file system's creation times (replaced by the virtual clock through the hooks)"]
 ASSUMPTIONS = ["fixed zone offset per process (DST transitions are outside the model)", "no I/O faults, single thread"]
